@@ -739,3 +739,57 @@ Proof.
     destruct (IH (set_pos m br bo r1 o1) r1 o1 nl2 fuel res MM1 Hr1 Ho1 Hp1 ltac:(lia) ltac:(lia) ltac:(lia) Hres) as (st' & E1 & E2').
     exists st'. split; [exact E1|]. rewrite E2'. apply set_pos_set_pos; assumption.
 Qed.
+
+Definition wb_after : stmt := match fn_body cf_lbuf_wordbeg with SSeq _ r => r | _ => SSkip end.
+Theorem tr_lbuf_wordbeg m lb bln lbs lines br bo bigz dir r o mf res d fuel :
+  mot_mem m lb bln lbs lines br bo -> lines_small lines -> lines_nl_ok lines ->
+  cell_at m br r -> cell_at m bo o -> pos_ok r o -> dir_ok dir ->
+  lbuf_wordbeg mf (map chop lines) (negb (bigz =? 0)) dir r o = Some res -> (mf < fuel)%nat -> (maxlen lines < fuel)%nat ->
+  callf cprog fuel (S (S (S (S (S (S d)))))) F_lbuf_wordbeg [VPtr lb 0; VInt bigz; VInt dir; VPtr br 0; VPtr bo 0] m
+  = let '(s, r', o') := res in Ok (st_val1 s, set_pos m br bo r' o').
+Proof.
+  intros MM Hsm Hok Hr Ho Hp Hd Hres Hmf Hf. pose proof MM as [R Hl Hne Nr No Lr Lo]. pose proof Hp as [Pr Po].
+  set (b := map chop lines) in *. unfold lbuf_wordbeg in Hres.
+  enter F_lbuf_wordbeg cf_lbuf_wordbeg. rewrite exec_seq.
+  (let t := eval cbv [wb_after fn_body cf_lbuf_wordbeg] in wb_after in change t with wb_after).
+  remember wb_after as ra eqn:Era.
+  xstep.
+  (* the kind argument of lbuf_wordlast *)
+  set (K := if negb (bigz =? 0) then 3%N else kindof b r o) in *.
+  destruct (lbuf_wordlast mf b K dir r o) as [[[s0 r0] o0]|] eqn:Ewl0; [|discriminate].
+  assert (Hcall : callf cprog fuel (S (S (S (S (S d))))) F_lbuf_wordlast [VPtr lb 0; VInt (Z.of_N K); VInt dir; VPtr br 0; VPtr bo 0] m
+                  = Ok (st_val1 s0, set_pos m br bo r0 o0)).
+  { apply (tr_lbuf_wordlast m lb bln lbs lines br bo K dir r o mf (s0, r0, o0) d fuel MM Hsm Hr Ho Hp Hd Ewl0 Hmf Hf). }
+  destruct (mot_mem_set_pos m lb bln lbs lines br bo r0 o0 MM) as (MM1 & Hr1 & Ho1).
+  pose proof (wordlast_pos_ok lines K dir mf r o s0 r0 o0 Hsm (la_nonul _ _ _ _ _ R) Hd Hp Ewl0) as Hp1.
+  pose proof MM1 as [R1 Hl1 _ _ _ Lr1 Lo1]. pose proof Hp1 as [Pr1 Po1].
+  set (m1 := set_pos m br bo r0 o0) in *.
+  assert (Hafter :
+    match exec (callf cprog fuel (S (S (S (S (S d)))))) fuel wb_after
+      (mkst [VPtr lb 0; VInt bigz; VInt dir; VPtr br 0; VPtr bo 0; VUndef] m1) with
+    | ONormal st => Ok (VUndef, memm st) | OReturn v st => Ok (v, memm st) | OErr x => Err x | _ => Err EShape end
+    = let '(s, r', o') := res in Ok (st_val1 s, set_pos m br bo r' o')).
+  { clear Era. unfold wb_after; cbn [fn_body cf_lbuf_wordbeg].
+    (let t := eval cbv [wb_loop fn_body cf_lbuf_wordbeg] in wb_loop in change t with wb_loop).
+    (let t := eval cbv [wb_rest fn_body cf_lbuf_wordbeg] in wb_rest in change t with wb_rest).
+    remember wb_loop as wl eqn:Ewl. remember wb_rest as wr eqn:Ewr.
+    xstep. rd_chr R1 Hsm Hf Hr1 Ho1 Pr1 Po1 (S d).
+    destruct (isnl_at m1 lb bln lbs lines r0 o0 (S (S (S (S d)))) fuel R1 Hl1 Hok) as (c & Hc & Hcn). rewrite Hc. xstep. fold b in Hcn. rewrite Hcn.
+    rewrite (next_call m1 lb bln lbs lines br bo r0 o0 dir (S d) fuel MM1 Hsm Hf Hr1 Ho1 Hp1 Hd).
+    fold b. destruct (lbuf_next b dir r0 o0) as [[s1 r1] o1] eqn:En. xstep.
+    unfold m1 at 1 2. rewrite set_pos_set_pos by assumption.
+    destruct s1; unfold st_val; [change (truth (VInt (-1))) with (@Ok bool true)|change (truth (VInt 0)) with (@Ok bool false)]; xstep.
+    - injection Hres as <-. reflexivity.
+    - destruct (mot_mem_set_pos m lb bln lbs lines br bo r1 o1 MM) as (MM2 & Hr2 & Ho2).
+      pose proof (lbuf_next_pos_ok lines dir r0 o0 _ _ _ Hsm (la_nonul _ _ _ _ _ R) Hd Hp1 En) as Hp2.
+      subst wl wr.
+      destruct (wb_loop_ok fuel d lb bln lbs lines br bo bigz dir fuel Hsm Hok Hf Hd mf (set_pos m br bo r1 o1) r1 o1
+                  (b2z (is_nl (lchr b r0 o0))) fuel res MM2 Hr2 Ho2 Hp2 Hmf ltac:(lia)
+                  ltac:(destruct (is_nl (lchr b r0 o0)); cbn; lia) Hres) as (st' & E1 & E2).
+      rewrite E1, E2. rewrite set_pos_set_pos by assumption. destruct res as [[s r'] o']. reflexivity. }
+  destruct (Z.eqb_spec bigz 0) as [Eb|Eb]; cbn [negb] in K; xstep.
+  - rd_chr R Hsm Hf Hr Ho Pr Po (S d).
+    rewrite (kind_at m lb bln lbs lines r o (S (S (S d))) fuel R Hl). xstep. fold b. fold K.
+    rewrite Hcall. xstep. subst ra. exact Hafter.
+  - change 3 with (Z.of_N K). rewrite Hcall. xstep. subst ra. exact Hafter.
+Qed.
